@@ -164,7 +164,7 @@ theorem Closed.pre (h : Closed P) {s s' : Sess} {o : List Out} (m : Msg) (sq : N
 
 theorem Closed.softReject (h : Closed P) {s0 : Sess} (s : Sess) (sq : Nat) (pre : List Out) (hp : P s0 s pre) :
     P s0 (softReject s sq pre).1 (softReject s sq pre).2 :=
-  h.trans hp (h.thenUpd (h.send s { m := mkReject s sq } rfl (Or.inl rfl)) (h.nr _ _))
+  h.trans hp (h.thenUpd (h.send s { m := mkReject s sq } rfl (Or.inl rfl)) (h.thenUpd (h.nr _ _) (h.ctrl _ _ _)))
 
 theorem Closed.logoff (h : Closed P) {s0 : Sess} (s : Sess) (pre : List Out) (hp : P s0 s pre) :
     P s0 (logoff s pre).1 (logoff s pre).2 := by
